@@ -265,8 +265,7 @@ def _escape(ctx):
             else:
                 src = norm(p.value) if isinstance(p, ast.Assign) else '?'
                 ok = src in ('None', 'TRS.__CACHE.get(new_trs, None)', 'TRS._cache_trs_to_dict(new_trs)')
-                ctx.check(ok, 'ESCAPE', f"__trs_dict is set from the cache or the private caching function",
-                          detail_bad=f"__trs_dict = {src}", key=f"ESCAPE|__trs_dict|store|{src[:30]}")
+                ctx.shape(ok, 'ESCAPE', f"__trs_dict is set from the cache or the private caching function")
     ctx.floor('__trs_dict reads', n_loads, 12)
     # outside the class nobody touches the mangled names
     for mod in ctx.repo.modules.values():
@@ -291,19 +290,32 @@ def _escape(ctx):
                   key=f"ESCAPE|trs_to_dict|return|{norm(r.value)[:30]}", where=common.loc(fi, r))
     # the module-level wrapper just delegates
     w = ctx.repo.func('trs.trs:trs_to_dict')
-    ctx.check(norm(w.node.body[-1]) == 'return TRS.trs_to_dict(trs)', 'ESCAPE',
-              'pytrs.trs_to_dict delegates to TRS.trs_to_dict',
-              detail_bad=f"`{norm(w.node.body[-1])}`", key="ESCAPE|trs_to_dict|wrapper")
+    ctx.shape(norm(w.node.body[-1]) == 'return TRS.trs_to_dict(trs)', 'ESCAPE',
+              'pytrs.trs_to_dict delegates to TRS.trs_to_dict')
     # the cached dict is what trs_to_dict returned for the same string
     c = ctx.repo.func('TRS._cache_trs_to_dict')
-    t = [norm(s) for s in walk_local(c.node) if isinstance(s, ast.stmt)]
-    ctx.check('dct = TRS.trs_to_dict(trs)' in t and 'TRS.__CACHE[trs] = dct' in t and 'return dct' in t, 'PURITY',
-              'the cache stores trs_to_dict(trs) under the complete key `trs`',
-              detail_bad="cache write changed (key or value)", key="PURITY|_cache_trs_to_dict|key")
-    stores = [s for s in walk_local(c.node) if isinstance(s, ast.Assign) and 'TRS.__CACHE[' in norm(s.targets[0])]
-    ctx.check(bool(stores) and all(any(norm(t_) == 'TRS._USE_CACHE' and pol for t_, pol in guards(s)) for s in stores),
-              'PURITY', 'cache is written only when _USE_CACHE is on',
-              detail_bad="cache write not gated by TRS._USE_CACHE", key="PURITY|_cache_trs_to_dict|gate")
+    stores = [s for s in walk_local(c.node) if isinstance(s, ast.Assign) and isinstance(s.targets[0], ast.Subscript)
+              and '__CACHE' in norm(s.targets[0].value)]
+    if not stores:
+        ctx.undecided('PURITY', 'the cache is keyed by the complete input string', 'cache store not recognised')
+    for s in stores:
+        key = s.targets[0].slice
+        roots = alias_roots(c, key) if isinstance(key, ast.Name) else {('expr', norm(key))}
+        whole = all(k == 'param' for k, _ in roots)
+        ctx.tri(whole, not isinstance(key, ast.Name), 'PURITY', 'the cache is keyed by the complete input string',
+                f"key roots {sorted(roots)}",
+                f"the cache key is `{norm(key)}`, not the input string itself: different inputs share one cached decomposition",
+                key="PURITY|_cache_trs_to_dict|key", where=common.loc(c, s))
+        # and what is stored is what trs_to_dict returned for that same string
+        pv = flow.provenance(c.node, s.value)
+        ctx.shape(any(cn.endswith('trs_to_dict') for cn in flow.prov_calls(pv)), 'PURITY',
+                  'the cached value is trs_to_dict(<the key>)')
+    ctext = ' '.join(norm(x) for x in walk_local(c.node) if isinstance(x, ast.stmt))
+    gated = bool(stores) and all(any('_USE_CACHE' in norm(t_) for t_, pol in guards(s)) for s in stores)
+    early = any(isinstance(n, ast.If) and '_USE_CACHE' in norm(n.test) and any(isinstance(x, ast.Return) for x in n.body)
+                for n in walk_local(c.node))
+    ctx.tri(gated or early, bool(stores) and '_USE_CACHE' not in ctext, 'PURITY', 'cache is written only when _USE_CACHE is on',
+            detail_bad="the cache write ignores TRS._USE_CACHE", key="PURITY|_cache_trs_to_dict|gate")
 
 
 def _cache_purity(ctx):
@@ -331,10 +343,9 @@ def _cache_purity(ctx):
     if len(setter) != 1:
         raise AnalysisError("TRS.trs setter not found")
     t = [norm(s) for s in ast.walk(setter[0]) if isinstance(s, ast.stmt)]
-    ctx.check('self.__trs_dict = TRS.__CACHE.get(new_trs, None)' in t
+    ctx.shape('self.__trs_dict = TRS.__CACHE.get(new_trs, None)' in t
               and 'self.__trs_dict = TRS._cache_trs_to_dict(new_trs)' in t, 'PURITY',
-              'TRS.trs setter: cache lookup by the complete string, else recompute',
-              detail_bad="setter changed", key="PURITY|TRS.trs.setter")
+              'TRS.trs setter: cache lookup by the complete string, else recompute')
     # default of _USE_CACHE irrelevant to results: only the write is gated (checked above);
     # nothing else reads _USE_CACHE
     readers = set()
